@@ -128,4 +128,5 @@ Definition run (name : string) (a : sx) : sx :=
   else if is "c05.hist" then H05.run_hist a
   else if is "c16.lib" then H16.run_lib a
   else if is "c01.hist" then H01h.run_hist a
+  else if is "c02.parsed" then H02.run_parsed a
   else sx_err "unknown case kind".
